@@ -700,6 +700,13 @@ def discovered_state(ctx, pkg, rule="R3"):
                         a.add(st.target.id)
                 classattrs.setdefault(n.name, set()).update(a)
                 i = inst.setdefault(n.name, set())
+                # the annotated fields of a @dataclass / attrs class / typing.NamedTuple are bound on every INSTANCE by the generated
+                # __init__ (`x: list = field(default_factory=list)`): the class body only declares them (ClassVar fields excepted)
+                decs = [ast.unparse(d.func if isinstance(d, ast.Call) else d).split(".")[-1] for d in n.decorator_list]
+                bases = [ast.unparse(b).split(".")[-1] for b in n.bases]
+                if any(d in ("dataclass", "define", "attrs", "s", "mutable", "frozen") for d in decs) or "NamedTuple" in bases:
+                    i |= {st.target.id for st in n.body if isinstance(st, ast.AnnAssign) and isinstance(st.target, ast.Name)
+                          and "ClassVar" not in ast.unparse(st.annotation)}
                 for m in ast.walk(n):
                     if isinstance(m, (ast.Assign, ast.AugAssign, ast.AnnAssign)):
                         for t in (m.targets if isinstance(m, ast.Assign) else [m.target]):
